@@ -38,9 +38,9 @@ def width(t):
         return t[2]
     if k in ('bin', 'un'):
         return t[2]
-    if k in ('cmp', 'fcc', 'feq', 'fne', 'flt', 'fle', 'fgt', 'fge', 'bool'):
+    if k in ('cmp', 'fcc', 'feq', 'fne', 'flt', 'fle', 'fgt', 'fge', 'bool', 'cas_ok', 'cas_failed'):
         return 8
-    if k in ('mem', 'signof', 'baddiv', 'junk', 'fp2int'):
+    if k in ('mem', 'signof', 'baddiv', 'junk', 'fp2int', 'observed', 'casax'):
         return t[1]
     if k in ('init', 'clobber'):
         return 64
@@ -397,6 +397,12 @@ class Machine:
         if f[0] == 'fcmp':
             _, prec, a, b = f
             return ('fcc', cc, prec, a, b)
+        if f[0] == 'cas':
+            if cc == 'eq':
+                return ('cas_ok', f[1])
+            if cc == 'ne':
+                return ('cas_failed', f[1])
+            raise Unknown('cc %s after cmpxchg' % cc)
         raise Unknown('flags %r' % (f,))
 
     # ---- one instruction ----------------------------------------------------------
@@ -639,6 +645,30 @@ class Machine:
         s.events.append(('call', ops[0]))
         for r in ('rax', 'rcx', 'rdx', 'rsi', 'rdi', 'r8', 'r9', 'r10', 'r11'):
             s.reg[r] = ('clobber', r)
+
+    def i_lock_cmpxchg(self, s, ops):
+        self._cmpxchg(s, ops, True)
+
+    def i_cmpxchg(self, s, ops):
+        self._cmpxchg(s, ops, False)
+
+    def _cmpxchg(self, s, ops, locked):
+        if ops[1][0] != 'mem' or ops[0][0] != 'reg':
+            raise Unknown('cmpxchg operands')
+        w = SUB[ops[0][1]][1]
+        addr = self.addr(s, ops[1])
+        ev = ('cmpxchg', locked, w, addr, lo(w, s.reg['rax']), s.rd(ops[0][1]))
+        s.events.append(ev)
+        n = sum(1 for e in s.events if e[0] == 'cmpxchg')
+        s.flags = ('cas', n)
+        # on failure the accumulator receives the observed value (same width as the operand)
+        obs = ('observed', w, addr, n)
+        if w == 64:
+            s.reg['rax'] = ('casax', 64, s.reg['rax'], obs, n)
+        elif w == 32:
+            s.reg['rax'] = ('casax', 64, s.reg['rax'], ext('zx', 32, 64, obs), n)
+        else:
+            s.reg['rax'] = ('casax', 64, s.reg['rax'], ('ins', w, s.reg['rax'], obs), n)
 
     def i_rep(self, s, ops):
         s.events.append(('rep', ops))
